@@ -55,6 +55,7 @@ func main() {
 	harness := flag.String("harness", "/verif/harness", "")
 	replay := flag.String("replay", "", "")
 	dump := flag.Bool("dump", false, "print every observation (debugging)")
+	latprobe := flag.Bool("latprobe", false, "debugging: every lattice combination in a design of its own")
 	flag.Parse()
 	rng := vh.NewRNG(*seed)
 	res := vh.NewResult()
@@ -101,6 +102,14 @@ func main() {
 			st = "main"
 		}
 		add(rf.Input.Design, st)
+	} else if *latprobe {
+		n := 0
+		for v := 0; v < 3; v++ {
+			for _, c := range latCombos(v) {
+				add(latticeDesign(fmt.Sprintf("latp_v%d_%s", v, c), []latCombo{c}, n), "main")
+				n++
+			}
+		}
 	} else {
 		for _, d := range covering() {
 			add(d, "main")
@@ -118,7 +127,12 @@ func main() {
 				continue // prefer designs that declare errors; every fifth design is kept anyway
 			}
 			n := len(items)
-			add(d, "main")
+			if i%2 == 0 { // every other random design gets service/API twins of its method errors
+				add(decorate(rng.Fork(), d), "main")
+			}
+			if len(items) == n {
+				add(d, "main")
+			}
 			if len(items) > n {
 				got++
 			}
@@ -287,6 +301,13 @@ func main() {
 	res.Rule = "designs: 2 hand-written covering designs + designgen.Random (HTTP envelope, compile-clean options, no security); per method: every declared error x 3 values, 12+ undeclared shapes, 6 request-decoding failures (where the payload shape allows); non-trivial = exchange that produced an observation; distinct = distinct (design, method, class, scripted error / raw request)"
 	os.WriteFile(filepath.Join(*out, "cases_encode.txt"), []byte(strings.Join(encLines, "\n")+"\n"), 0o644)
 	os.WriteFile(filepath.Join(*out, "cases_decode.txt"), []byte(strings.Join(decLines, "\n")+"\n"), 0o644)
+	var tabLines []string
+	for _, it := range items {
+		if !it.bu.Dropped {
+			tabLines = append(tabLines, coqTables(len(res.Cases)+len(tabLines), it)...)
+		}
+	}
+	os.WriteFile(filepath.Join(*out, "cases_table.txt"), []byte(strings.Join(tabLines, "\n")+"\n"), 0o644)
 	if err := res.Write(filepath.Join(*out, "result.json")); err != nil {
 		panic(err)
 	}
